@@ -129,7 +129,17 @@ func readGuard(f *ast.File, file, fn, util string) guard {
 				g.clean = false
 				g.dirt = "guard has init/else"
 			}
-			if h := touches(ifs.Body, r, allowedPre, stateIdents); len(h) > 0 {
+			// same-receiver helpers that only build a refusal (vetted below, where they are called) are no state
+			allowedBody := map[string]bool{}
+			for k, v := range allowedPre {
+				allowedBody[k] = v
+			}
+			for _, d := range f.Decls {
+				if hd, ok := d.(*ast.FuncDecl); ok && hd.Body != nil && lib.FuncDecl(f, "rateLimiter", hd.Name.Name) == hd {
+					allowedBody[hd.Name.Name] = true
+				}
+			}
+			if h := touches(ifs.Body, r, allowedBody, stateIdents); len(h) > 0 {
 				g.clean = false
 				g.dirt = "guard body touches " + strings.Join(h, ",")
 			}
@@ -137,10 +147,33 @@ func readGuard(f *ast.File, file, fn, util string) guard {
 			ast.Inspect(ifs.Body, func(x ast.Node) bool {
 				if c, ok := x.(*ast.CallExpr); ok {
 					s := show(c.Fun)
-					if !(s == "fmt.Errorf" || strings.HasPrefix(s, "klog.") || s == r+".leaderElector.GetLeaders") {
-						g.clean = false
-						g.dirt = "guard body calls " + s
+					okCall := func(s, recv string) bool {
+						return s == "fmt.Errorf" || strings.HasPrefix(s, "klog.") || s == recv+".leaderElector.GetLeaders"
 					}
+					if okCall(s, r) {
+						return true
+					}
+					// a helper of the same receiver, followed one level: it may only build the refusal
+					if strings.HasPrefix(s, r+".") && strings.Count(s, ".") == 1 {
+						if hd := lib.FuncDecl(f, "rateLimiter", strings.TrimPrefix(s, r+".")); hd != nil && hd.Body != nil {
+							hr := recvName(hd)
+							bad := touches(hd.Body, hr, allowedPre, stateIdents)
+							ast.Inspect(hd.Body, func(y ast.Node) bool {
+								if hc, ok := y.(*ast.CallExpr); ok && !okCall(show(hc.Fun), hr) {
+									bad = append(bad, "call "+show(hc.Fun))
+								}
+								return true
+							})
+							if len(bad) == 0 {
+								return true
+							}
+							g.dirt = "helper " + s + ": " + strings.Join(bad, ",")
+							g.clean = false
+							return true
+						}
+					}
+					g.clean = false
+					g.dirt = "guard body calls " + s
 				}
 				return true
 			})
@@ -172,6 +205,113 @@ func readGuard(f *ast.File, file, fn, util string) guard {
 		g.dirt = "no IsLeader test"
 	}
 	return g
+}
+
+// recogniseShard answers "int(fnv1a32(bytes of <parameter 0>) % uint32(<parameter 1>))" when GetShardID is that function,
+// however it is spelt: with hash/fnv's New32a/Write/Sum32, or with an in-place loop over the bytes (index or range)
+// that xors the byte in and then multiplies by the FNV prime, starting from the FNV offset basis.
+func recogniseShard(g *lib.Gen, file string, f *ast.File, fd *ast.FuncDecl) string {
+	var names []string
+	for _, p := range fd.Type.Params.List {
+		for _, n := range p.Names {
+			names = append(names, n.Name)
+		}
+	}
+	if len(names) != 2 || show(fd.Type) != "func("+names[0]+" string, "+names[1]+" int) int" {
+		return "unrecognised signature " + show(fd.Type)
+	}
+	val, cnt := names[0], names[1]
+	// the result: int(H % uint32(cnt))
+	var hexpr ast.Expr
+	for _, st := range fd.Body.List {
+		if rs, ok := st.(*ast.ReturnStmt); ok && len(rs.Results) == 1 {
+			if c, ok := rs.Results[0].(*ast.CallExpr); ok && show(c.Fun) == "int" && len(c.Args) == 1 {
+				if be, ok := c.Args[0].(*ast.BinaryExpr); ok && be.Op == token.REM && show(be.Y) == "uint32("+cnt+")" {
+					hexpr = be.X
+				}
+			}
+		}
+	}
+	if hexpr == nil {
+		return "unrecognised result in " + show(fd.Body)
+	}
+	const want = "int(fnv1a32(bytes of <parameter 0>) % uint32(<parameter 1>))"
+	body := show(fd.Body)
+	// (a) hash/fnv
+	if c, ok := hexpr.(*ast.CallExpr); ok {
+		if sel, ok := c.Fun.(*ast.SelectorExpr); ok && sel.Sel.Name == "Sum32" {
+			h := show(sel.X)
+			if importName(f, "hash/fnv") == "fnv" && strings.Contains(body, h+" := fnv.New32a()") && strings.Contains(body, h+".Write([]byte("+val+"))") &&
+				strings.Index(body, h+".Write(") < strings.Index(body, h+".Sum32()") && strings.Count(body, ".Write(") == 1 {
+				return want
+			}
+		}
+		return "unrecognised hasher in " + body
+	}
+	// (b) in place
+	hid, ok := hexpr.(*ast.Ident)
+	if !ok {
+		return "unrecognised hash expression " + show(hexpr)
+	}
+	consts := g.Consts(file)
+	valueOf := func(e ast.Expr) string {
+		s := show(e)
+		if strings.HasPrefix(s, "uint32(") && strings.HasSuffix(s, ")") {
+			s = s[len("uint32(") : len(s)-1]
+		}
+		if v, ok := consts[s]; ok {
+			return v.ExactString()
+		}
+		return s
+	}
+	init, loopOK := "", false
+	for _, st := range fd.Body.List {
+		switch e := st.(type) {
+		case *ast.AssignStmt:
+			if len(e.Lhs) == 1 && show(e.Lhs[0]) == hid.Name && len(e.Rhs) == 1 && e.Tok == token.DEFINE {
+				init = valueOf(e.Rhs[0])
+			}
+		case *ast.DeclStmt:
+			if gd, ok := e.Decl.(*ast.GenDecl); ok {
+				for _, sp := range gd.Specs {
+					if vs, ok := sp.(*ast.ValueSpec); ok && len(vs.Names) == 1 && vs.Names[0].Name == hid.Name && len(vs.Values) == 1 {
+						init = valueOf(vs.Values[0])
+					}
+				}
+			}
+		case *ast.ForStmt, *ast.RangeStmt:
+			var lb *ast.BlockStmt
+			byteExpr := ""
+			if fs, ok := e.(*ast.ForStmt); ok {
+				lb = fs.Body
+				// for i := 0; i < len(val); i++  -> the byte is val[i]
+				if as, ok := fs.Init.(*ast.AssignStmt); ok && len(as.Lhs) == 1 && show(as.Rhs[0]) == "0" {
+					i := show(as.Lhs[0])
+					if show(fs.Cond) == i+" < len("+val+")" && show(fs.Post) == i+"++" {
+						byteExpr = val + "[" + i + "]"
+					}
+				}
+			} else if rs, ok := e.(*ast.RangeStmt); ok {
+				lb = rs.Body
+				if show(rs.X) == "[]byte("+val+")" && rs.Value != nil { // ranging over the string itself would yield runes
+					byteExpr = show(rs.Value)
+				}
+			}
+			if lb == nil || byteExpr == "" || len(lb.List) != 2 {
+				continue
+			}
+			x, ok1 := lb.List[0].(*ast.AssignStmt)
+			m, ok2 := lb.List[1].(*ast.AssignStmt)
+			if ok1 && ok2 && x.Tok == token.XOR_ASSIGN && show(x.Lhs[0]) == hid.Name && show(x.Rhs[0]) == "uint32("+byteExpr+")" &&
+				m.Tok == token.MUL_ASSIGN && show(m.Lhs[0]) == hid.Name && valueOf(m.Rhs[0]) == "16777619" {
+				loopOK = true
+			}
+		}
+	}
+	if init == "2166136261" && loopOK {
+		return want
+	}
+	return "unrecognised hash loop in " + body
 }
 
 func main() {
@@ -234,6 +374,7 @@ func main() {
 		fmt.Fprintf(&b, "def getShardIDSig : String := %q\n", show(gs.Type))
 		fmt.Fprintf(&b, "def getShardIDBody : String := %q\n", show(gs.Body))
 		fmt.Fprintf(&b, "def getShardIDImportsFnv : Bool := %v\n", importName(sf, "hash/fnv") == "fnv")
+		fmt.Fprintf(&b, "def shardFunction : String := %q\n", recogniseShard(g, shardFile, sf, gs))
 
 		// ---- clientsets
 		const csFile = "pkg/ratelimiter/clientsets/clientsets.go"
@@ -244,6 +385,48 @@ func main() {
 		fmt.Fprintf(&b, "def gatewayShardIDForBody : String := %q\n", normUtil(show(sif.Body), cutil))
 		cfor := mustFunc(cf, csFile, "clientSets", "ClientFor")
 		fmt.Fprintf(&b, "def gatewayClientForBody : String := %q\n", show(cfor.Body))
+		// by role: ShardIDFor answers util.GetShardID(<its parameter>, <receiver>.shardCount), after a zero test of that count;
+		// ClientFor asks ShardIDFor(<its parameter>) first
+		recvS, par0 := recvName(sif), ""
+		if len(sif.Type.Params.List) > 0 && len(sif.Type.Params.List[0].Names) > 0 {
+			par0 = sif.Type.Params.List[0].Names[0].Name
+		}
+		shardCall, zeroGuard := "", false
+		var guardPos, callPos token.Pos
+		ast.Inspect(sif.Body, func(x ast.Node) bool {
+			switch e := x.(type) {
+			case *ast.CallExpr:
+				if show(e.Fun) == cutil+".GetShardID" && len(e.Args) == 2 && shardCall == "" {
+					a0, a1 := show(e.Args[0]), show(e.Args[1])
+					if a0 == par0 {
+						a0 = "<parameter>"
+					}
+					if a1 == recvS+".shardCount" {
+						a1 = "<receiver>.shardCount"
+					}
+					shardCall = "util.GetShardID(" + a0 + ", " + a1 + ")"
+					callPos = e.Pos()
+				}
+			case *ast.IfStmt:
+				c := show(e.Cond)
+				if (c == recvS+".shardCount == 0" || c == "0 == "+recvS+".shardCount") && len(e.Body.List) > 0 {
+					if _, ok := e.Body.List[len(e.Body.List)-1].(*ast.ReturnStmt); ok && guardPos == token.NoPos {
+						guardPos = e.Pos()
+						zeroGuard = true
+					}
+				}
+			}
+			return true
+		})
+		otherHash := importName(cf, "hash/fnv") != "" || strings.Contains(show(sif.Body), "%")
+		fmt.Fprintf(&b, "def gatewayShardCall : String := %q\n", shardCall)
+		fmt.Fprintf(&b, "def gatewayZeroGuardFirst : Bool := %v\n", zeroGuard && guardPos < callPos)
+		fmt.Fprintf(&b, "def gatewayHashesItself : Bool := %v\n", otherHash)
+		recvC, parC := recvName(cfor), ""
+		if len(cfor.Type.Params.List) > 0 && len(cfor.Type.Params.List[0].Names) > 0 {
+			parC = cfor.Type.Params.List[0].Names[0].Name
+		}
+		fmt.Fprintf(&b, "def gatewayClientForAsksShardIDFor : Bool := %v\n", strings.Contains(show(cfor.Body), recvC+".ShardIDFor("+parC+")"))
 
 		// ---- limiter entry points
 		const rlFile = "pkg/ratelimiter/limiter/ratelimter.go"
@@ -439,6 +622,45 @@ func main() {
 			return true
 		})
 		fmt.Fprintf(&b, "def k8sFlusher : String := %q\n", flusher)
+		ksStop := mustFunc(kf, ksFile, "objectStore", "Stop")
+		posClose, posFlush, posFlag := token.NoPos, token.NoPos, token.NoPos
+		ast.Inspect(ksStop.Body, func(x ast.Node) bool {
+			switch e := x.(type) {
+			case *ast.CallExpr:
+				fs := show(e.Fun)
+				if fs == "close" && len(e.Args) == 1 && strings.HasSuffix(show(e.Args[0]), ".stopCh") && posClose == token.NoPos {
+					posClose = e.Pos()
+				}
+				if (strings.HasSuffix(fs, ".doSyncLocked") || strings.HasSuffix(fs, ".Flush")) && posFlush == token.NoPos {
+					posFlush = e.Pos()
+				}
+			case *ast.AssignStmt:
+				if len(e.Lhs) == 1 && strings.HasSuffix(show(e.Lhs[0]), ".stopped") && show(e.Rhs[0]) == "true" && posFlag == token.NoPos {
+					posFlag = e.Pos()
+				}
+			}
+			return true
+		})
+		fmt.Fprintf(&b, "def k8sStopOrder : String := %q\n", func() string {
+			if posClose == token.NoPos || posFlush == token.NoPos || posFlag == token.NoPos {
+				return "unrecognised"
+			}
+			type ev struct {
+				p token.Pos
+				n string
+			}
+			evs := []ev{{posClose, "close stopCh"}, {posFlush, "final flush"}, {posFlag, "stopped = true"}}
+			sort.Slice(evs, func(i, j int) bool { return evs[i].p < evs[j].p })
+			return evs[0].n + "; " + evs[1].n + "; " + evs[2].n
+		}())
+		flusherStops := false
+		ast.Inspect(mustFunc(kf, ksFile, "", "NewK8sCacheStore").Body, func(x ast.Node) bool {
+			if gs, ok := x.(*ast.GoStmt); ok && strings.HasSuffix(show(gs.Call.Fun), "wait.Until") && len(gs.Call.Args) == 3 {
+				flusherStops = strings.HasSuffix(show(gs.Call.Args[2]), ".stopCh") && strings.HasSuffix(show(gs.Call.Args[0]), ".sync")
+			}
+			return true
+		})
+		fmt.Fprintf(&b, "def k8sFlusherEndsOnStopCh : Bool := %v\n", flusherStops)
 		// the ORDER inside leaderElector.stopLeading: the leader table forgets this server before the callback runs
 		esl := mustFunc(ef, elFile, "leaderElector", "stopLeading")
 		posDelete, posCallback := token.NoPos, token.NoPos
@@ -454,6 +676,21 @@ func main() {
 			}
 			return true
 		})
+		est := mustFunc(ef, elFile, "leaderElector", "startLeading")
+		posSet, posStartCb := token.NoPos, token.NoPos
+		ast.Inspect(est.Body, func(x ast.Node) bool {
+			if c, ok := x.(*ast.CallExpr); ok {
+				fs := show(c.Fun)
+				if strings.HasSuffix(fs, ".setLeader") && posSet == token.NoPos {
+					posSet = c.Pos()
+				}
+				if strings.HasSuffix(fs, ".callbacks.OnStartedLeading") && posStartCb == token.NoPos {
+					posStartCb = c.Pos()
+				}
+			}
+			return true
+		})
+		fmt.Fprintf(&b, "def electorStartRecordsLeaderBeforeCallback : Bool := %v\n", posSet != token.NoPos && posStartCb != token.NoPos && posSet < posStartCb)
 		fmt.Fprintf(&b, "def electorStopForgetsBeforeCallback : Bool := %v\n", posDelete != token.NoPos && posCallback != token.NoPos && posDelete < posCallback)
 		// the error path of rateLimiter.startLeading: every write of limitStoreMap in it, with the condition it is under
 		stl := mustFunc(rf, rlFile, "rateLimiter", "startLeading")
